@@ -30,6 +30,30 @@ def check_no_other_transaction_control(ctx, m):
                     n += 1
                     ctx.check(p.attr in OK or p.attr in ('new', 'dirty', 'deleted'), 'C09.R6', 'KmipEngine.%s|session.%s' % (name, p.attr), m.site(x, fn), 'session.%s' % p.attr,
                               'session.%s is used in %s: besides the single commit of the operation this opens, flushes or ends a transaction (or may do so with the sqlite driver), so the operation is no longer applied in one piece' % (p.attr, name))
+    # the same object under a local name: `with self._data_store_session_factory() as s:` / `s = self._data_store_session_factory()` /
+    # a name stored into (or read from) self._data_session
+    n_alias = 0
+    for name, fn in sorted(m.methods.items()):
+        al = set()
+        for x in walk_local(fn):
+            if isinstance(x, ast.With):
+                for it in x.items:
+                    if isinstance(it.optional_vars, ast.Name) and 'session_factory' in U(it.context_expr):
+                        al.add(it.optional_vars.id)
+            if isinstance(x, ast.Assign) and len(x.targets) == 1:
+                t, v = x.targets[0], x.value
+                if isinstance(t, ast.Name) and ('session_factory' in U(v) or is_self_attr(v, '_data_session')):
+                    al.add(t.id)
+                if is_self_attr(t, '_data_session') and isinstance(v, ast.Name):
+                    al.add(v.id)
+        for x in walk_local(fn):
+            if isinstance(x, ast.Name) and x.id in al and isinstance(x.ctx, ast.Load):
+                p = getattr(x, '_parent', None)
+                if isinstance(p, ast.Attribute) and p.value is x:
+                    n_alias += 1
+                    ctx.check(p.attr in OK or p.attr in ('new', 'dirty', 'deleted'), 'C09.R6', 'KmipEngine.%s|session.%s' % (name, p.attr), m.site(x, fn), 'session.%s' % p.attr,
+                              'session.%s is used in %s (on the local name %s of the data session): besides the single commit of the operation this opens, flushes or ends a transaction, or changes how the connection commits (autocommit: every statement is its own transaction), so an operation is no longer applied in one piece' % (p.attr, name, x.id))
+    ctx.analysed['data_session_alias_member_uses'] = n_alias
     ctx.count('data_session_member_uses', n, 15)
 
 def run(ctx):
